@@ -615,6 +615,35 @@ def run(res, tier, only_case=None):
             if len(res.samples) < 6 and nbody > 1 and good:
                 res.sample({"scenario": s.name, "limit": lim, "chunks": len(B.chunks), "header": B.hdr_len,
                             "requests": [(l[2], l[1]) for l in log][:6], "model": mline[:200]})
+        if only_case is None:
+            # transport variations on multipart answers: pieces ending exactly at a part's last data byte,
+            # boundaries made of the punctuation RFC 2046 allows (apostrophe included)
+            seenB, multi = set(), []
+            for s, _ in todo:
+                if s.B not in seenB and len(ZF(s.B).chunks) >= 5:
+                    seenB.add(s.B); multi.append(s)
+            for s in multi[: (4 if tier == "quick" else 20)]:
+                B = ZF(s.B)
+                T0 = bytearray(s.B)
+                for i in range(1, len(B.chunks), 2):        # every other chunk damaged: several separate ranges
+                    dg, clen, ulen, off = B.chunks[i]
+                    if clen:
+                        T0[B.hdr_len + off] ^= 0xff
+                T0 = bytes(T0)
+                for style, cut in (("hex", True), ("rfc", False), ("rfc", True)):
+                    b.srv.boundary_style, b.srv.cut_at_parts = style, cut
+                    try:
+                        rc, out, log, err = b.run_tool(None, s.B, T0, 1000)
+                    finally:
+                        b.srv.boundary_style, b.srv.cut_at_parts = "hex", False
+                    res.evaluations += 1
+                    key = "c04:transport:%s:%s:%s" % (s.name, style, "cut" if cut else "whole")
+                    res.nontrivial.add(key)
+                    res.count("transport:%s:%s" % (style, "cut" if cut else "whole"))
+                    if rc != 0 or out != s.B:
+                        res.violation("oracle", key, "multipart answer (%s boundary%s): zckdl exit %d, target %s B"
+                                      % (style, ", pieces ending at part ends" if cut else "", rc, "==" if out == s.B else "!="),
+                                      {"name": s.name, "B": s.B.hex(), "A": None, "T0": T0.hex(), "limit": 1000, "boundary_style": style, "cut_at_parts": cut})
         if only_case is None:   # regression probe for the fixed empty-range spin (invalid B: must end with an error, not hang)
             probe_invalid_b(res, b, rng)
         res.extra["tool_runs"] = b.n
